@@ -2,12 +2,54 @@ From Coq Require Import ZArith NArith List Bool String.
 From Coq Require Import ExtrOcamlBasic.
 From Falcon.lib Require Import Wire PyStr.
 From Falcon.C09 Require Import Model.
-From Falcon.C06 Require Import Model Spec.
+Require Falcon.C10.Model Falcon.C08.Model.
+From Falcon.C06 Require Import Model Spec View.
 Import ListNotations.
 Open Scope Z_scope.
 
 Definition v_route (r : res (list (list N))) : val :=
   match r with Ok l => L [I 0; vlist vstr l] | Http400 => L [I 1] | Crash _ => L [I 2] end.
+
+Definition v_res {A} (f : A -> val) (r : res A) : val :=
+  match r with Ok a => L [I 0; f a] | Http400 => L [I 1] | Crash _ => L [I 2] end.
+
+Definition v_pval (p : Falcon.C08.Model.pval) : val :=
+  match p with
+  | Falcon.C08.Model.VStr s => L [I 0; vstr s]
+  | Falcon.C08.Model.VList l => L [I 1; vlist vstr l]
+  end.
+
+Definition w_params (r : Falcon.C10.Model.res Falcon.C08.Model.params) : val :=
+  match r with
+  | Falcon.C10.Model.Ok p => L [I 0; vlist (fun kv => L [vstr (fst kv); v_pval (snd kv)]) p]
+  | Falcon.C10.Model.Crash _ => L [I 2]
+  end.
+
+Definition v_etag (e : etag) : val :=
+  match e with Star => L [I 0] | Tag w v => L [I 1; vbool w; vstr v] end.
+Definition v_cval (c : cval) : val :=
+  match c with Raw s => L [I 0; vstr s] | Unq s => L [I 1; vstr s] end.
+
+Definition v_view (v : view) : val :=
+  L [vstr (v_method v); vstr (v_path v); vopt vstr (v_query_string v); vopt w_params (v_params v);
+     vopt vstr (v_content_type v); v_res (vopt I) (v_content_length v); vstr (v_scheme v);
+     v_res vstr (v_host v); v_res (vopt I) (v_port v); vstr (v_netloc v);
+     v_res (vopt vstr) (v_subdomain v); vstr (v_root_path v); vstr (v_relative_uri v);
+     vstr (v_uri v); vstr (v_prefix v); vstr (v_forwarded_scheme v); vstr (v_forwarded_host v);
+     vstr (v_forwarded_uri v); vstr (v_forwarded_prefix v);
+     v_res (vlist vstr) (v_access_route v); v_res vstr (v_remote_addr v);
+     vlist (fun p => L [vstr (fst p); v_cval (snd p)]) (v_cookies v);
+     v_res (vopt (fun p => L [I (fst p); I (snd p)])) (v_range v); v_res (vopt vstr) (v_range_unit v);
+     vopt (vlist v_etag) (v_if_match v); vopt (vlist v_etag) (v_if_none_match v);
+     vstr (v_accept v); vopt vstr (v_user_agent v); vopt vstr (v_referer v); vopt vstr (v_expect v);
+     vopt vstr (v_if_range v); vopt vstr (v_auth v)].
+
+Definition d_areq (v : val) : areq :=
+  {| a_method := dstr (nth_val 0 v); a_path := dstr (nth_val 1 v); a_path_dec := dstr (nth_val 2 v);
+     a_query := dstr (nth_val 3 v); a_query_dec := dopt dstr (nth_val 4 v);
+     a_headers := dlist (fun p => (dstr (nth_val 0 p), dstr (nth_val 1 p))) (nth_val 5 v);
+     a_scheme := dstr (nth_val 6 v); a_server_name := dstr (nth_val 7 v); a_port := dZ (nth_val 8 v);
+     a_port_text := dstr (nth_val 9 v); a_root_path := dstr (nth_val 10 v); a_peer := dstr (nth_val 11 v) |}.
 
 Definition d_hdr (v : val) : list N * list N := (dstr (nth_val 0 v), dstr (nth_val 1 v)).
 
@@ -38,6 +80,11 @@ Definition run (v : val) : val :=
   | L [I 3; path; qs] =>
     L [vopt (vpair vstr vstr) (sim_split (dstr path) (dopt dstr qs));
        vpair vstr vstr (target_split (dstr path))]
+  | L [I 4; r; strip; kb; csv] =>
+    let r := d_areq r in
+    let o := {| o_strip := dbool strip; o_keep_blank := dbool kb; o_csv := dbool csv |} in
+    L [v_view (wsgi_view true o (env_of_req r)); v_view (asgi_view true o (scope_of_req r));
+       vbool (valid_headers (a_headers r))]
   | _ => L [I (-1)]
   end.
 
